@@ -35,6 +35,8 @@ Endings == {
   H("abandoned_break",      <<"ok">>, <<Ok, F(1, 1, <<97>>), F(1, 0, <<226>>)>>, <<D(3), Eof>>, <<R("text#0", "abandon:break")>>),
   H("abandoned_raise",      <<"ok">>, <<Ok, F(1, 0, <<226>>), F(9, 1, <<>>)>>, <<D(3), Eof>>, <<R("ping#0", "abandon:raise")>>),
   H("abandoned_close",      <<"ok">>, <<Ok, F(2, 0, <<1>>)>>, <<D(2), Eof>>, <<R("poll#0", "abandon:close")>>),
+  \* abandoned at a housekeeping Poll (after an idle wait), the iterator kept alive and finalised while the next connection runs
+  H("abandoned_kept_alive", <<"ok">>, <<Ok>>, <<D(1), [kind |-> "timeout", dt |-> 5], Eof>>, <<R("poll#1", "abandon:keep")>>),
   H("abandoned_with",       <<"ok">>, <<OkZ, Z(F(1, 1, <<104, 105, 104, 105, 104, 105>>))>>, <<D(2), Eof>>, <<R("text#0", "abandon:with")>>) }
 
 Continuations == {
